@@ -24,6 +24,10 @@ CHECKS = {
    text='An implementation-shaped TLA+ model of ocimem (one step per critical section; Buffer.Commit in two steps) with an embedded linearizability monitor is checked by TLC over all interleavings (Linearizable, StoredMatchesKey, TagNeverFalselyMissing); every schedule of the model is replayed on the real ocimem with verif yield hooks as scheduler gates; seeded stress batches (2-5 goroutines, shared upload session, directly and through ociserver) run under the Go race detector; for every recorded history (invocation/response events ordered by a global atomic sequence number) TLC searches a placement of linearization points of the sequential specification OciRegistry (LinTrace.tla).',
    note='Data-race freedom is what the race detector observes on the schedules run (TLA+ has no Go memory model). K3 (Commit check/store window, API-level) is a listed known finding identified by the relaxation K3_CommitTwoPhase. ' + TRUST,
    technique='TLA+ concurrent model with linearizability monitor (TLC); model schedules replayed with yield-point hooks; linearizability of recorded histories decided by TLC; Go race detector'),
+ 'C20': dict(engine='OciFuncs', design='5/C20',
+   text='TLC exhaustively checks OciFuncs: own-field-only (pairwise over the case family and per table over all 2^18 field subsets), totality, nil table = empty table, exactly one yield. TLC exports every case of 18 methods x {each field alone, all but one, all, none} x constructor x nil/non-nil table with its predicted outcome; each case, plus seeded-random tables and arguments, is executed on a real *ociregistry.Funcs built by reflection, and every recorded call (stubs run with arguments, constructor calls, result and error identity/class, iterator yields, panics) is validated by TLC as what Call/Effects prescribe.',
+   note='Delegation is observed through recording stubs and tagged values and through errors.Is / interface identity; the method name handed to the constructor is outside the property (recorded as an observation). ' + TRUST,
+   technique='TLA+ function-table model checked with TLC; TLC-exported cases executed by reflection on the real Funcs; recorded events validated by TLC'),
  'C14': dict(engine='OciRegistry', design='5/C14',
    text='TLC checks on the reference model, for every history over the small universes, the step properties TagStable, TaggedStays, ClosureKept (no step removes content reachable from a tag) and TaggedPresent in immutable-tags mode. Histories generated by TLC (including walks confined to pushes/deletes around one tagged closure) and seeded-random ones run on ocimem in immutable-tags mode (directly and behind a client/server hop) and through ocifilter.ReadOnly / Immutable over a pre-populated registry; after every call the projected state of the registry underneath must equal the model state (WrapApply / WrapProps in RegTrace.tla), so a moved or lost tag, a deleted protected item or a write through the read-only wrapper is rejected at the step where it happens.',
    note='"remains retrievable" read as an action property (DESIGN 5/C14, O1); references of a manifest are those of its bytes under the media type it is stored with; the concurrent clause relies on the C08 machinery. ' + TRUST,
@@ -39,7 +43,7 @@ m = dict(version=1,
   setup_cmd='./tools/setup.sh',
   hooks=dict(guard='verif', enable='go build -tags verif (the harness is built with the tag by every check)',
              baseline_off_cmd='/verif/tools/baseline.sh /repo', source_commits=['4bf9b87'], add_only=True),
-  engines=[dict(name='OciError', path='spec/OciError.tla', serves_properties=['C07'], kind_free_text='TLA+ error algebra across client/server hops; OciErrorTrace validates recorded cases'), dict(name='OciMemConc', path='spec/OciMemConc.tla', serves_properties=['C08'], kind_free_text='implementation-shaped concurrent model of ocimem with linearizability monitor; LinTrace.tla decides linearizability of recorded histories against OciRegistry'), dict(name='OciClientWriter', path='spec/OciClientWriter.tla', serves_properties=['C04'], kind_free_text='TLA+ model of the HTTP client upload writer over registry sessions; MC configs honest/any; OciClientWriterGen generates caller scenarios'), dict(name='OciRegistry', path='spec/OciRegistry.tla', serves_properties=['C01', 'C02', 'C03', 'C14'], kind_free_text='TLA+ reference model of the registry Interface; RegTrace.tla validates recorded executions; OciRegistryGen.tla generates histories')],
+  engines=[dict(name='OciFuncs', path='spec/OciFuncs.tla', serves_properties=['C20'], kind_free_text='function-table semantics; MC over all field subsets; trace validation of reflective calls'), dict(name='OciError', path='spec/OciError.tla', serves_properties=['C07'], kind_free_text='TLA+ error algebra across client/server hops; OciErrorTrace validates recorded cases'), dict(name='OciMemConc', path='spec/OciMemConc.tla', serves_properties=['C08'], kind_free_text='implementation-shaped concurrent model of ocimem with linearizability monitor; LinTrace.tla decides linearizability of recorded histories against OciRegistry'), dict(name='OciClientWriter', path='spec/OciClientWriter.tla', serves_properties=['C04'], kind_free_text='TLA+ model of the HTTP client upload writer over registry sessions; MC configs honest/any; OciClientWriterGen generates caller scenarios'), dict(name='OciRegistry', path='spec/OciRegistry.tla', serves_properties=['C01', 'C02', 'C03', 'C14'], kind_free_text='TLA+ reference model of the registry Interface; RegTrace.tla validates recorded executions; OciRegistryGen.tla generates histories')],
   checks=[], not_applicable=[],
   notes='All verdicts come from executions of the real code that TLC rejects against a TLA+ specification; see DESIGN.md.')
 for pid in ALL:
